@@ -147,6 +147,19 @@ func NewCtlTarget(state string, rf int, r *vk.Rand, res *vk.Result, ipA, ipB int
 	router := crest.NewRouter(crest.NewServer(w.C))
 	t := &Target{Name: "controller", Router: router, Liveness: "/v1/replicas",
 		TryLock: w.C.TryLock, Unlock: w.C.Unlock, Digest: w.Describe}
+	// follow-up: a mode request for every replica the controller lists now (each listed address is looked up again)
+	t.Aftermath = func() []Req {
+		var out []Req
+		seen := map[string]bool{}
+		for _, r := range w.C.VerifState().Replicas {
+			if seen[r.Address] || len(out) >= 3 {
+				continue
+			}
+			seen[r.Address] = true
+			out = append(out, Req{Method: "PUT", URL: "/v1/replicas/" + b64(r.Address), Body: `{"mode":"ERR"}`, Class: "valid", Valid: true})
+		}
+		return out
+	}
 	return &CtlTarget{W: w, T: t, Router: router, State: state}, true
 }
 
